@@ -12,7 +12,7 @@ PadTo(s, n) == s \o Zeros(n - Len(s))
 LE32(n) == BytesLE(FromNat(n))
 S_FileInfo == <<70,105,108,101,73,110,102,111>>
 
-\* entry = [size |-> Nat, name |-> bytes (1..63, no NUL), digest |-> 20 bytes]
+\* entry = [size |-> Nat, name |-> bytes (1..64, no NUL; 64 fills the field), digest |-> 20 bytes]
 RenderFiinEntry(e) == LE32(e.size) \o Zeros(4) \o PadTo(e.name, 64) \o PadTo(e.digest, 24)
 RenderFiin(es) ==
   S_FileInfo \o Zeros(16) \o LE32(1024) \o LE32(96 * Len(es)) \o Zeros(992)
